@@ -36,30 +36,14 @@ func c36DiffKind(want, got string) string {
 		case strings.HasPrefix(wl[i], "H "):
 			return "header"
 		case strings.HasPrefix(wl[i], "Q "):
-			if wf[1] != gf[1] {
-				return "question-name"
-			}
-			return "question-type-class"
+			return "question"
 		case len(wf) >= 6 && len(gf) >= 6:
-			if wf[0] != gf[0] {
-				return "resource-section"
-			}
-			if wf[1] != gf[1] {
-				return "resource-owner-name"
-			}
-			for k := 2; k < 5; k++ {
+			for k := 0; k < 5; k++ { // section, owner, type, class, ttl
 				if wf[k] != gf[k] {
-					return "resource-" + strings.SplitN(wf[k], "=", 2)[0]
+					return "resource-header"
 				}
 			}
-			kind := wf[5]
-			if strings.HasPrefix(kind, "len=") && len(wf) > 6 {
-				if wf[5] != gf[5] {
-					return "resource-length"
-				}
-				kind = strings.SplitN(wf[6], " ", 2)[0]
-			}
-			return "resource-body-" + kind
+			return "resource-body"
 		}
 		return "line"
 	}
@@ -72,68 +56,90 @@ func c36Exact(b []byte) []byte {
 	return out[:len(b):len(b)]
 }
 
-// c36Shape is the abstract shape of a case for signatures: which kinds of
-// name slots it has.
+// c36Shape is the abstract shape of a case for signatures: which kind of
+// resource bodies it has.
 func c36Shape(d *c36Msg) string {
-	kinds := map[string]bool{}
+	kind := ""
 	for _, r := range d.R {
-		kinds[r.B.K] = true
-	}
-	if len(kinds) == 1 {
-		for k := range kinds {
-			return k
+		if kind != "" && kind != r.B.K {
+			return "mixed"
 		}
+		kind = r.B.K
 	}
-	if len(kinds) == 0 {
+	if kind == "" {
 		return "no-resources"
 	}
-	return "mixed"
+	return kind
 }
 
 type c36Opt struct {
 	bigPrefix bool // additionally run the appended variants behind a 0x3FFF-byte prefix
+	selfCheck bool // check that the reference decoder inverts the reference encoder on this message
+}
+
+func c36Short(b []byte) []byte {
+	if len(b) > 400 {
+		return b[:400]
+	}
+	return b
 }
 
 // c36Check runs all variants on one message descriptor. It returns the number
 // of compression pointers in the Pack output (for outcome classification).
 func c36Check(w *vx.W, d c36Msg, o c36Opt) (ptrs int, ok bool) {
 	m0 := d.message()
-	want := c36Dump(&m0, false, false)
+	want, _ := c36Dump(&m0, false)
 	refWire := c36RefEncode(&m0)
-	// Harness self-check: the reference decoder inverts the reference encoder.
-	if rd, _, err := c36RefDecode(refWire); err != nil {
-		panic(fmt.Sprintf("c36 harness bug: reference decoder rejects reference encoding: %v", err))
-	} else if c36StripLen(rd) != want {
-		panic(fmt.Sprintf("c36 harness bug: reference codec does not round-trip:\nwant %s\ngot  %s", want, c36StripLen(rd)))
+	if o.selfCheck {
+		// Harness self-check: the reference decoder inverts the reference encoder.
+		if rd, _, _, err := c36RefDecode(refWire); err != nil {
+			panic(fmt.Sprintf("c36 harness bug: reference decoder rejects reference encoding: %v", err))
+		} else if rd != want {
+			panic(fmt.Sprintf("c36 harness bug: reference codec does not round-trip:\nwant %s\ngot  %s", want, rd))
+		}
 	}
 	shape := c36Shape(&d)
 
+	// Wire images already verified in this case (the variants usually produce
+	// identical bytes; an identical image need not be decoded again).
+	var verified [][]byte
+	var packLens []uint16
+
 	// decode checks one produced wire image: Unpack must accept it and yield
-	// the original; the reference decoder must accept it and agree with Unpack
-	// including RDLENGTH.
-	decode := func(via string, wire []byte, needRef bool) (int, bool) {
+	// the original; the strict reference decoder must accept it and agree with
+	// Unpack, including every RDLENGTH.
+	decode := func(via string, wire []byte) (int, bool) {
+		for _, v := range verified {
+			if bytes.Equal(v, wire) {
+				return 0, true
+			}
+		}
 		wire = c36Exact(wire)
 		var u Message
 		if err := u.Unpack(wire); err != nil {
-			w.Failf("C36/"+via+"/unpack-error/"+shape, "%s produced %x; Unpack: %v\nmessage:\n%s", via, c36Short(wire), err, want)
+			w.Failf("C36/"+via+"/unpack-error", "%s produced %x; Unpack: %v\nmessage:\n%s", via, c36Short(wire), err, want)
 			return 0, false
 		}
-		if got := c36Dump(&u, true, false); got != want {
+		got, glens := c36Dump(&u, true)
+		if got != want {
 			w.Failf("C36/"+via+"/unpack-differs/"+c36DiffKind(want, got), "%s then Unpack changed the message (wire %x)\nwant:\n%s\ngot:\n%s", via, c36Short(wire), want, got)
 			return 0, false
 		}
-		rd, p, err := c36RefDecode(wire)
+		rd, rlens, p, err := c36RefDecode(wire)
 		if err != nil {
-			if needRef {
-				w.Failf("C36/"+via+"/wire-not-rfc-decodable/"+shape, "%s produced %x which the reference decoder rejects: %v\nmessage:\n%s", via, c36Short(wire), err, want)
-				return 0, false
-			}
-			return 0, true
+			w.Failf("C36/"+via+"/wire-not-rfc-decodable", "%s produced %x which the reference decoder rejects: %v\nmessage:\n%s", via, c36Short(wire), err, want)
+			return 0, false
 		}
-		if got := c36Dump(&u, true, true); got != rd {
+		if got != rd {
 			w.Failf("C36/"+via+"/unpack-disagrees-with-reference-decoder/"+c36DiffKind(rd, got), "%s produced %x\nreference decoder:\n%s\nUnpack:\n%s", via, c36Short(wire), rd, got)
 			return 0, false
 		}
+		if !c36LensEqual(glens, rlens) {
+			w.Failf("C36/"+via+"/unpack-disagrees-with-reference-decoder/resource-length", "%s produced %x\nRDLENGTHs on the wire %v, Header.Length after Unpack %v", via, c36Short(wire), rlens, glens)
+			return 0, false
+		}
+		verified = append(verified, wire)
+		packLens = rlens
 		return p, true
 	}
 
@@ -144,7 +150,7 @@ func c36Check(w *vx.W, d c36Msg, o c36Opt) (ptrs int, ok bool) {
 		w.Failf("C36/pack/error/"+shape, "Pack of a well-formed message failed: %v\n%s", err, want)
 		return 0, false
 	}
-	ptrs, good := decode("pack", packed, true)
+	ptrs, good := decode("pack", packed)
 	if !good {
 		return 0, false
 	}
@@ -157,8 +163,11 @@ func c36Check(w *vx.W, d c36Msg, o c36Opt) (ptrs int, ok bool) {
 		return 0, false
 	}
 	// Pack fills in Header.Type and Header.Length of every resource of m.
-	if rd, _, _ := c36RefDecode(packed); c36Dump(&m, true, true) != rd {
-		w.Failf("C36/pack/header-type-length-not-filled-in/"+c36DiffKind(rd, c36Dump(&m, true, true)), "after Pack the Message's resource headers do not describe the wire\nwire:\n%s\nmessage:\n%s", rd, c36Dump(&m, true, true))
+	if md, mlens := c36Dump(&m, true); md != want {
+		w.Failf("C36/pack/header-type-not-filled-in/"+c36DiffKind(want, md), "after Pack the Message differs from what was packed (Header.Type must be the body's type)\nwant:\n%s\nmessage:\n%s", want, md)
+		return 0, false
+	} else if !c36LensEqual(mlens, packLens) {
+		w.Failf("C36/pack/header-length-not-filled-in/"+shape, "after Pack Header.Length of the resources is %v, RDLENGTHs on the wire are %v\n%s", mlens, packLens, want)
 		return 0, false
 	}
 
@@ -182,7 +191,7 @@ func c36Check(w *vx.W, d c36Msg, o c36Opt) (ptrs int, ok bool) {
 			w.Failf("C36/appendpack"+tag+"/clobbers-prefix/"+shape, "AppendPack changed the %d existing bytes", len(prefix))
 			return 0, false
 		}
-		if _, good := decode("appendpack"+tag, out[len(prefix):], true); !good {
+		if _, good := decode("appendpack"+tag, out[len(prefix):]); !good {
 			return 0, false
 		}
 		if len(out)-len(prefix) > len(refWire) {
@@ -200,7 +209,7 @@ func c36Check(w *vx.W, d c36Msg, o c36Opt) (ptrs int, ok bool) {
 			w.Failf("C36/builder-compress"+tag+"/clobbers-prefix/"+shape, "Builder changed the %d existing bytes", len(prefix))
 			return 0, false
 		}
-		if _, good := decode("builder-compress"+tag, out[len(prefix):], true); !good {
+		if _, good := decode("builder-compress"+tag, out[len(prefix):]); !good {
 			return 0, false
 		}
 		if len(out)-len(prefix) > len(refWire) {
@@ -220,32 +229,10 @@ func c36Check(w *vx.W, d c36Msg, o c36Opt) (ptrs int, ok bool) {
 		w.Failf("C36/builder-nocompress/wire-differs-from-rfc-reference/"+shape, "Builder without compression produced %x, reference encoding %x\n%s", c36Short(out), c36Short(refWire), want)
 		return 0, false
 	}
-	if _, good := decode("builder-nocompress", out, true); !good {
+	if _, good := decode("builder-nocompress", out); !good {
 		return 0, false
 	}
 	return ptrs, true
-}
-
-func c36Short(b []byte) []byte {
-	if len(b) > 400 {
-		return b[:400]
-	}
-	return b
-}
-
-// c36StripLen removes the " len=N" field from a dump with lengths.
-func c36StripLen(s string) string {
-	lines := strings.Split(s, "\n")
-	for i, l := range lines {
-		if !strings.HasPrefix(l, "R") {
-			continue
-		}
-		if j := strings.Index(l, " len="); j >= 0 {
-			k := strings.Index(l[j+1:], " ")
-			lines[i] = l[:j] + l[j+1+k:]
-		}
-	}
-	return strings.Join(lines, "\n")
 }
 
 // ---- entry alphabet for sequences -------------------------------------------
@@ -324,7 +311,7 @@ func c36WireLen(n int) int {
 
 func TestVerif_C36(t *testing.T) {
 	vx.Run(t, "C36", func(c *vx.Ctx) {
-		c.Rule("cases are message descriptors over a 15-name alphabet (root, shared suffixes in both orders, case variant, 63-byte label, 254-byte name and its tail, arbitrary bytes) and one or more instances of every supported body type (A, AAAA, NS, CNAME, SOA, PTR, MX, TXT, SRV, SVCB, HTTPS, OPT, unknown). parts: header = all 128 flag combinations x OpCode{0,1,2,15} x RCode{0,1,5,15} x ID{0,1,0x8000,0xffff} x {empty, one question}; question = every name x type/class in {0,1,255,65535}^2 and every ordered pair of names; single = every owner name x every body (every name in every RDATA name slot, SOA: every pair) x every resource section x 2 class/TTL values; seq = every sequence of up to K entries (K=3 quick, 4 thorough) from 8 question entries and 35 resource entries covering every kind of name slot, with every non-decreasing assignment of resource entries to the three sections; full = two entries in every section for every ordered pair of the 35 resource entries; boundary = a name placed at every offset 0x3ffc..0x4003 (the 14-bit pointer limit) and reused afterwards, also behind a 0x3fff-byte AppendPack/Builder prefix. Each case runs Pack, AppendPack(prefix), Builder without and with compression (fresh / non-empty buffer); non-trivial = all variants were produced, unpacked and compared with the original and with an independent reference encoder/decoder")
+		c.Rule("cases are message descriptors over a 15-name alphabet (root, shared suffixes in both orders, case variant, 63-byte label, 254-byte name and its tail, arbitrary bytes) and one or more instances of every supported body type (A, AAAA, NS, CNAME, SOA, PTR, MX, TXT, SRV, SVCB, HTTPS, OPT, unknown). parts: header = all 128 flag combinations x OpCode{0,1,2,15} x RCode{0,1,5,15} x ID{0,0xffff} (thorough {0,1,0x8000,0xffff}) x {empty, one question}; question = every name x type/class in {0,1,255,65535}^2 and every ordered pair of names; single = every owner name x every body (every name in every RDATA name slot, SOA: every pair) x every resource section x 2 class/TTL values (quick: the two values alternate); seq = every sequence of up to 2 (thorough 3) entries from 8 question entries and 35 resource entries covering every kind of name slot (questions first, every non-decreasing assignment of resource entries to the three sections); seq-reduced = every such sequence of exactly 3 (thorough 4) entries over a reduced alphabet of 4 question and 16 resource entries; full = two entries in every section for every ordered pair of the 35 resource entries; boundary = a name placed at every offset 0x3ffc..0x4003 (the 14-bit pointer limit) and reused afterwards, also behind a 0x3fff-byte AppendPack/Builder prefix. Each case runs Pack, AppendPack(prefix), Builder without and with compression (fresh / non-empty buffer); non-trivial = all variants were produced, unpacked and compared with the original and with an independent reference encoder/decoder")
 		c.Assume("well-formed means: canonical names (non-empty labels <= 63 bytes without '.', trailing dot, <= 254 bytes presentation / 255 wire), OpCode and RCode < 16, TXT with at least one string, SVCB keys strictly increasing, unknown types that are not one of the supported types; semantic equality treats nil and empty slices as equal and ignores Name.Data beyond Length")
 		c.Assume("beyond the statement, the uncompressed Builder output and pointer-free Pack output are required to be byte-identical to a reference RFC 1035 encoder, every wire image must be accepted by a strict reference decoder (pointers strictly backwards, RDATA fills RDLENGTH), and Pack must leave Header.Type/Length describing the wire (documented on ResourceHeader)")
 
@@ -348,7 +335,7 @@ func TestVerif_C36(t *testing.T) {
 
 		// --- header
 		vx.Enumerate(c, "header", vx.Opts{}, func(yield func(c36Msg) bool) {
-			for _, id := range []uint16{0, 1, 0x8000, 0xffff} {
+			for _, id := range vx.Pick(c, []uint16{0, 0xffff}, []uint16{0, 1, 0x8000, 0xffff}) {
 				for _, op := range []uint8{0, 1, 2, 15} {
 					for _, rc := range []uint8{0, 1, 5, 15} {
 						for fl := 0; fl < 128; fl++ {
@@ -360,7 +347,7 @@ func TestVerif_C36(t *testing.T) {
 					}
 				}
 			}
-		}, check(c36Opt{}))
+		}, check(c36Opt{selfCheck: true}))
 
 		h1 := c36H{ID: 0xbeef, Flags: 1 | 8 | 16, RC: 0}
 		h2 := c36H{ID: 7, Flags: 2 | 4 | 32 | 64, Op: 5, RC: 3}
@@ -384,7 +371,7 @@ func TestVerif_C36(t *testing.T) {
 					}
 				}
 			}
-		}, check(c36Opt{}))
+		}, check(c36Opt{selfCheck: true}))
 
 		// --- single records: every owner x every body x every section
 		bodies := c36AllBodies()
@@ -392,56 +379,103 @@ func TestVerif_C36(t *testing.T) {
 			for _, b := range bodies {
 				for owner := range c36Names {
 					for sec := 1; sec <= 3; sec++ {
-						if !yield(c36Msg{H: h1, R: []c36R{{Sec: sec, Owner: owner, Class: 1, TTL: 0, B: b}}}) ||
-							!yield(c36Msg{H: h2, R: []c36R{{Sec: sec, Owner: owner, Class: 65535, TTL: 0xffffffff, B: b}}}) {
-							return
+						// quick: the two class/TTL values alternate instead of multiplying
+						alt := (owner+sec)%2 == 0
+						if c.Quick() && alt || !c.Quick() {
+							if !yield(c36Msg{H: h1, R: []c36R{{Sec: sec, Owner: owner, Class: 1, TTL: 0, B: b}}}) {
+								return
+							}
+						}
+						if c.Quick() && !alt || !c.Quick() {
+							if !yield(c36Msg{H: h2, R: []c36R{{Sec: sec, Owner: owner, Class: 65535, TTL: 0xffffffff, B: b}}}) {
+								return
+							}
 						}
 					}
 				}
 			}
-		}, check(c36Opt{}))
+		}, check(c36Opt{selfCheck: true}))
 
 		// --- sequences
 		entries := c36SeqEntries()
-		K := vx.Pick(c, 3, 4)
-		c.Note("seq.max_entries", K)
-		c.Note("seq.resource_entry_alphabet", len(entries))
-		vx.Enumerate(c, "seq", vx.Opts{}, func(yield func(c36Msg) bool) {
-			// total entries n, of which q questions
-			var rec func(d c36Msg, left int, minSec int, qPhase bool) bool
-			rec = func(d c36Msg, left int, minSec int, qPhase bool) bool {
-				if len(d.Q)+len(d.R) > 0 {
-					cp := c36Msg{H: d.H, Q: append([]c36Q(nil), d.Q...), R: append([]c36R(nil), d.R...)}
-					if !yield(cp) {
-						return false
+		// seqGen yields every sequence of 1..k entries: questions (over qnames)
+		// first, then resource entries with non-decreasing sections; shortest
+		// messages first. Only sequences longer than skipUpTo are yielded.
+		seqGen := func(qnames []int, ents []c36R, k, skipUpTo int) func(yield func(c36Msg) bool) {
+			return func(yield func(c36Msg) bool) {
+				var rec func(d c36Msg, left int, minSec int, qPhase bool) bool
+				rec = func(d c36Msg, left int, minSec int, qPhase bool) bool {
+					if left == 0 {
+						return yield(c36Msg{H: d.H, Q: append([]c36Q(nil), d.Q...), R: append([]c36R(nil), d.R...)})
 					}
-				}
-				if left == 0 {
+					if qPhase {
+						for _, n := range qnames {
+							d2 := d
+							d2.Q = append(d.Q[:len(d.Q):len(d.Q)], c36Q{N: n, T: 1, C: 1})
+							if !rec(d2, left-1, 1, true) {
+								return false
+							}
+						}
+					}
+					for sec := minSec; sec <= 3; sec++ {
+						for _, e := range ents {
+							e.Sec = sec
+							d2 := d
+							d2.R = append(d.R[:len(d.R):len(d.R)], e)
+							if !rec(d2, left-1, sec, false) {
+								return false
+							}
+						}
+					}
 					return true
 				}
-				if qPhase {
-					for _, n := range c36SeqNames {
-						d2 := d
-						d2.Q = append(d.Q[:len(d.Q):len(d.Q)], c36Q{N: n, T: 1, C: 1})
-						if !rec(d2, left-1, 1, true) {
-							return false
-						}
+				for n := skipUpTo + 1; n <= k; n++ {
+					if !rec(c36Msg{H: h1}, n, 1, true) {
+						return
 					}
 				}
-				for sec := minSec; sec <= 3; sec++ {
-					for _, e := range entries {
-						e.Sec = sec
-						d2 := d
-						d2.R = append(d.R[:len(d.R):len(d.R)], e)
-						if !rec(d2, left-1, sec, false) {
-							return false
-						}
-					}
-				}
-				return true
 			}
-			rec(c36Msg{H: h1}, K, 1, true)
-		}, check(c36Opt{}))
+		}
+		// Reduced alphabet (names ., a.b., x.a.b., the 254-byte name and its tail).
+		var red []c36R
+		{
+			for _, e := range entries {
+				keep := false
+				switch e.B.K {
+				case "A":
+					keep = e.Owner == 0 || e.Owner == 3 || e.Owner == 4 || e.Owner == 7
+				case "NS":
+					keep = e.B.N1 == 0 || e.B.N1 == 3 || e.B.N1 == 4 || e.B.N1 == 7
+				case "MX":
+					keep = e.B.N1 == 4 || e.B.N1 == 7
+				case "SOA":
+					keep = (e.B.N1 == 3 && e.B.N2 == 4) || (e.B.N1 == 8 && e.B.N2 == 7)
+				case "SRV":
+					keep = e.B.N1 == 4
+				case "SVCB":
+					keep = e.B.N1 == 3
+				case "TXT", "OPT":
+					keep = true
+				}
+				if keep {
+					red = append(red, e)
+				}
+			}
+		}
+		redQ := []int{0, 3, 4, 7}
+		c.Note("seq.resource_entry_alphabet", len(entries))
+		c.Note("seq.reduced_resource_entry_alphabet", len(red))
+		if c.Quick() {
+			c.Note("seq.max_entries_full_alphabet", 2)
+			c.Note("seq.max_entries_reduced_alphabet", 3)
+			vx.Enumerate(c, "seq", vx.Opts{}, seqGen(c36SeqNames, entries, 2, 0), check(c36Opt{}))
+			vx.Enumerate(c, "seq-reduced", vx.Opts{}, seqGen(redQ, red, 3, 2), check(c36Opt{}))
+		} else {
+			c.Note("seq.max_entries_full_alphabet", 3)
+			c.Note("seq.max_entries_reduced_alphabet", 4)
+			vx.Enumerate(c, "seq", vx.Opts{}, seqGen(c36SeqNames, entries, 3, 0), check(c36Opt{}))
+			vx.Enumerate(c, "seq-reduced", vx.Opts{}, seqGen(redQ, red, 4, 3), check(c36Opt{}))
+		}
 
 		// --- all sections full
 		vx.Enumerate(c, "full", vx.Opts{}, func(yield func(c36Msg) bool) {
@@ -485,6 +519,6 @@ func TestVerif_C36(t *testing.T) {
 					}
 				}
 			}
-		}, check(c36Opt{bigPrefix: true}))
+		}, check(c36Opt{bigPrefix: true, selfCheck: true}))
 	})
 }
